@@ -7,7 +7,8 @@ CONFIG = {
         "strings.Split/TrimSpace, hex.Decode: modelled on bytes (TrimSpace for ASCII input only; the driver reports that both table files are pure ASCII); agreement checked by the exhaustive sweeps (they determine both internal maps) and by synthetic malformed table files through the real loader",
         "the two UAO table files are read at run time by the compiled Lean driver (too large for a kernel literal): WF of the real tables is an evaluation of the decidable predicate, not a kernel proof",
     ],
-    "modelled": ["types.Big5ToUtf8", "types.Utf8ToBig5", "types.initToBig5", "types.initToUtf8", "types.initB2U", "types.initU2B"],
+    "modelled_config": "types.config() as the regenerated list Gen.Big5.configReads + configutil.SetStringConfig (ini value of prefix.lower(KEY) if set, else the default expression); viper's ini parsing itself is exercised, not modelled (cfg ops run the real viper + types.InitConfig in a child process)",
+    "modelled": ["types.config (table-path reads)", "types.Big5ToUtf8", "types.Utf8ToBig5", "types.initToBig5", "types.initToUtf8", "types.initB2U", "types.initU2B"],
     "assumptions": ["table files are pure ASCII (checked on every run: `wf` op)",
                     "file I/O and the already-loaded guard of initB2U/initU2B are not modelled (one load per process)"],
 }
